@@ -351,8 +351,8 @@ theorem visitProps_lookup_other (c : Ctx) (k : String) : ∀ (ps : List (String 
         rw [visitProps_lookup_other c k ps _ kvs' hk.2 h, lookup_setKey_other k2 k x' kvs hne]
 
 /-- emptiness of a property slot is a matter of shape -/
-theorem slotEmpty_shape (c : Ctx) (k : String) (kvs kvs' : List (String × J)) (h : shape kvs' = shape kvs) :
-    slotEmpty c (lookup k kvs') = slotEmpty c (lookup k kvs) := by
+theorem slotEmpty_shape (_c : Ctx) (k : String) (kvs kvs' : List (String × J)) (h : shape kvs' = shape kvs) :
+    slotEmpty (lookup k kvs') = slotEmpty (lookup k kvs) := by
   have h1 := lookup_shape k kvs
   have h2 := lookup_shape k kvs'
   rw [h] at h2
@@ -398,7 +398,7 @@ theorem objChecks_shape (c : Ctx) (req props addl) (kvs kvs' : List (String × J
 
 /-- every property that could still receive a default has a non-empty slot -/
 def Settled (c : Ctx) (ps : List (String × S)) (kvs : List (String × J)) : Prop :=
-  ∀ p ∈ ps, slotEmpty c (lookup p.1 kvs) = true → dfltFor c p.2.attr = none
+  ∀ p ∈ ps, slotEmpty (lookup p.1 kvs) = true → dfltFor c p.2.attr = none
 
 theorem dfltFor_nonNull (c : Ctx) (a : Attr) (d : J) (h : dfltFor c a = some d) : d.isNull = false := by
   unfold dfltFor at h
@@ -408,14 +408,14 @@ theorem dfltFor_nonNull (c : Ctx) (a : Attr) (d : J) (h : dfltFor c a = some d) 
     · cases h; rename_i hh; simp at hh; exact hh.1
   · cases h
 
-theorem slot_after_set (c : Ctx) (k k' : String) (d : J) (kvs : List (String × J)) (hd : d.isNull = false)
-    (h : slotEmpty c (lookup k' kvs) = false) : slotEmpty c (lookup k' (setKey k d kvs)) = false := by
+theorem slot_after_set (_c : Ctx) (k k' : String) (d : J) (kvs : List (String × J)) (hd : d.isNull = false)
+    (h : slotEmpty (lookup k' kvs) = false) : slotEmpty (lookup k' (setKey k d kvs)) = false := by
   by_cases e : k' = k
   · subst e; rw [lookup_setKey_same]; cases d <;> simp_all [slotEmpty, J.isNull]
   · rw [lookup_setKey_other k k' d kvs e]; exact h
 
 theorem injectStep_slot_mono (c : Ctx) (k k' : String) (a : Attr) (kvs : List (String × J))
-    (h : slotEmpty c (lookup k' kvs) = false) : slotEmpty c (lookup k' (injectStep c k a kvs)) = false := by
+    (h : slotEmpty (lookup k' kvs) = false) : slotEmpty (lookup k' (injectStep c k a kvs)) = false := by
   unfold injectStep
   split
   · split
@@ -424,9 +424,9 @@ theorem injectStep_slot_mono (c : Ctx) (k k' : String) (a : Attr) (kvs : List (S
   · exact h
 
 theorem injectStep_fills (c : Ctx) (k : String) (a : Attr) (d : J) (kvs : List (String × J))
-    (hd : dfltFor c a = some d) : slotEmpty c (lookup k (injectStep c k a kvs)) = false := by
+    (hd : dfltFor c a = some d) : slotEmpty (lookup k (injectStep c k a kvs)) = false := by
   unfold injectStep
-  cases he : slotEmpty c (lookup k kvs) with
+  cases he : slotEmpty (lookup k kvs) with
   | false => simpa using he
   | true =>
     simp only [↓reduceIte, hd]
@@ -435,14 +435,14 @@ theorem injectStep_fills (c : Ctx) (k : String) (a : Attr) (d : J) (kvs : List (
     cases d <;> simp_all [slotEmpty, J.isNull]
 
 theorem injectStep_noop (c : Ctx) (k : String) (a : Attr) (kvs : List (String × J))
-    (h : slotEmpty c (lookup k kvs) = true → dfltFor c a = none) : injectStep c k a kvs = kvs := by
+    (h : slotEmpty (lookup k kvs) = true → dfltFor c a = none) : injectStep c k a kvs = kvs := by
   unfold injectStep
-  cases he : slotEmpty c (lookup k kvs) with
+  cases he : slotEmpty (lookup k kvs) with
   | false => simp
   | true => simp [h he]
 
 theorem injectDefaults_slot_mono (c : Ctx) (k' : String) : ∀ (ps : List (String × S)) (kvs : List (String × J)),
-    slotEmpty c (lookup k' kvs) = false → slotEmpty c (lookup k' (injectDefaults c ps kvs)) = false
+    slotEmpty (lookup k' kvs) = false → slotEmpty (lookup k' (injectDefaults c ps kvs)) = false
   | [], kvs, h => by simpa [injectDefaults] using h
   | (k, s) :: ps, kvs, h => by
     simp only [injectDefaults]
@@ -812,7 +812,7 @@ theorem lookup_not_contains {α} (k : String) : ∀ (ps : List (String × α)), 
 
 /-- what the member `k` is after the default loop, given what it was -/
 def afterInject (c : Ctx) (a : Attr) (m : Option J) : Option J :=
-  if slotEmpty c m then (match dfltFor c a with | some d => some d | none => m) else m
+  if slotEmpty m then (match dfltFor c a with | some d => some d | none => m) else m
 
 theorem injectStep_lookup_same (c : Ctx) (k : String) (a : Attr) (kvs : List (String × J)) :
     lookup k (injectStep c k a kvs) = afterInject c a (lookup k kvs) := by
@@ -920,261 +920,426 @@ theorem visit_obj_member (c : Ctx) (a : Attr) (req props addl) (hn : keysNodup (
       | none => simp only [hp] at hk ⊢; exact hk
       | some s => simp only [hp] at hk ⊢; rw [hk]
 
-/-! ### model = spec when the received value has no explicit null member -/
 
-theorem cleanProps_true : ∀ (ps : List (String × S)), cleanProps ps = true → ∀ p ∈ ps, cleanDefaults p.2 = true
-  | [], _, p, hp => by cases hp
-  | (k, s) :: ps, h, p, hp => by
-    simp only [cleanProps, Bool.and_eq_true] at h
-    cases hp with
-    | head => exact h.1
-    | tail _ hm => exact cleanProps_true ps h.2 p hm
+/-! ### model = spec: the default loop is "append one member per absent property with a default" -/
 
-theorem cleanList_true : ∀ (bs : List S), cleanList bs = true → ∀ b ∈ bs, cleanDefaults b = true
-  | [], _, b, hb => by cases hb
-  | s :: bs, h, b, hb => by
-    simp only [cleanList, Bool.and_eq_true] at h
-    cases hb with
-    | head => exact h.1
-    | tail _ hm => exact cleanList_true bs h.2 b hm
-
-theorem cleanDefaults_attr (s : S) (h : cleanDefaults s = true) : attrClean s.attr = true := by
-  cases s <;> simp only [cleanDefaults, Bool.and_eq_true] at h <;> simp [S.attr, h]
-
-/-- "no explicit null member, and not null itself" -/
-def solid (x : J) : Prop := x.isNull = false ∧ hasNullProp x = false
-
-theorem noNull_lookup : ∀ (kvs : List (String × J)) (k : String) (x : J),
-    hasNullPropKvs kvs = false → lookup k kvs = some x → solid x
-  | [], _, _, _, h => by simp [lookup] at h
-  | (k', y) :: r, k, x, hn, h => by
-    simp only [hasNullPropKvs, Bool.or_eq_false_iff] at hn
+theorem setKey_absent (k : String) (v : J) : ∀ (kvs : List (String × J)), lookup k kvs = none → setKey k v kvs = kvs ++ [(k, v)]
+  | [], _ => rfl
+  | (k', v') :: r, h => by
     simp only [lookup] at h
     split at h
-    · cases h; exact ⟨hn.1.1, hn.1.2⟩
-    · exact noNull_lookup r k x hn.2 h
-
-theorem noNull_setKey : ∀ (kvs : List (String × J)) (k : String) (x : J),
-    hasNullPropKvs kvs = false → solid x → hasNullPropKvs (setKey k x kvs) = false
-  | [], k, x, _, hx => by simp [setKey, hasNullPropKvs, hx.1, hx.2]
-  | (k', y) :: r, k, x, hn, hx => by
-    simp only [hasNullPropKvs, Bool.or_eq_false_iff] at hn
-    simp only [setKey]
-    split
-    · simp [hasNullPropKvs, hx.1, hx.2, hn.2]
-    · simp [hasNullPropKvs, hn.1, noNull_setKey r k x hn.2 hx]
-
-theorem dfltFor_spec (c : Ctx) (a : Attr) : dfltFor (specCtx c) a = dfltFor c a := rfl
-
-theorem slotEmpty_spec (c : Ctx) (m : Option J) (h : ∀ x, m = some x → x.isNull = false) :
-    slotEmpty (specCtx c) m = slotEmpty c m := by
-  cases m with
-  | none => rfl
-  | some x =>
-    have := h x rfl
-    cases x <;> simp_all [slotEmpty, J.isNull]
-
-theorem dfltFor_solid (c : Ctx) (a : Attr) (d : J) (ha : attrClean a = true) (h : dfltFor c a = some d) : solid d := by
-  refine ⟨dfltFor_nonNull c a d h, ?_⟩
-  unfold dfltFor at h
-  unfold attrClean at ha
-  cases hd : a.dflt with
-  | none => simp [hd] at h
-  | some d' =>
-    simp only [hd] at h ha
-    split at h
     · cases h
-    · cases h; simpa using ha
+    · rename_i hne
+      simp only [setKey, hne, ↓reduceIte, List.cons_append]
+      rw [setKey_absent k v r h]
 
-theorem injectStep_spec (c : Ctx) (k : String) (a : Attr) (kvs : List (String × J)) (ha : attrClean a = true)
-    (hn : hasNullPropKvs kvs = false) :
-    injectStep (specCtx c) k a kvs = injectStep c k a kvs ∧ hasNullPropKvs (injectStep c k a kvs) = false := by
-  unfold injectStep
-  rw [slotEmpty_spec c (lookup k kvs) (fun x hx => (noNull_lookup kvs k x hn hx).1), dfltFor_spec]
-  refine ⟨rfl, ?_⟩
-  split
-  · cases hd : dfltFor c a with
-    | none => exact hn
-    | some d => exact noNull_setKey kvs k d hn (dfltFor_solid c a d ha hd)
-  · exact hn
+theorem lookup_append_other {α} (k k' : String) (v : α) (hne : k' ≠ k) : ∀ (kvs : List (String × α)),
+    lookup k' (kvs ++ [(k, v)]) = lookup k' kvs
+  | [] => by simp [lookup, hne]
+  | (k2, v2) :: r => by
+    simp only [List.cons_append, lookup]
+    split
+    · rfl
+    · exact lookup_append_other k k' v hne r
 
-theorem injectDefaults_spec (c : Ctx) : ∀ (ps : List (String × S)) (kvs : List (String × J)),
-    (∀ p ∈ ps, cleanDefaults p.2 = true) → hasNullPropKvs kvs = false →
-    injectDefaults (specCtx c) ps kvs = injectDefaults c ps kvs ∧ hasNullPropKvs (injectDefaults c ps kvs) = false
-  | [], kvs, _, hn => ⟨rfl, hn⟩
-  | (k, s) :: ps, kvs, hc, hn => by
-    simp only [injectDefaults]
-    obtain ⟨e1, e2⟩ := injectStep_spec c k s.attr kvs (cleanDefaults_attr s (hc (k, s) (by simp))) hn
-    rw [e1]
-    exact injectDefaults_spec c ps _ (fun p hp => hc p (by simp [hp])) e2
+/-- appending a member under a key that is none of the property names changes nothing for `absentDefaults` -/
+theorem absentDefaults_append (c : Ctx) (k : String) (v : J) : ∀ (ps : List (String × S)) (kvs : List (String × J)),
+    (ps.map (·.1)).contains k = false → absentDefaults c ps (kvs ++ [(k, v)]) = absentDefaults c ps kvs
+  | [], _, _ => rfl
+  | (k2, s) :: ps, kvs, h => by
+    simp only [List.map_cons, List.contains_cons, Bool.or_eq_false_iff] at h
+    have hne : k2 ≠ k := by intro e; simp [e] at h
+    simp only [absentDefaults]
+    rw [lookup_append_other k k2 v hne kvs, absentDefaults_append c k v ps kvs h.2]
 
-theorem objPre_spec (c : Ctx) (req props addl) (kvs : List (String × J))
-    (hc : ∀ p ∈ props, cleanDefaults p.2 = true) (hn : hasNullPropKvs kvs = false) :
-    objPre (specCtx c) req props addl kvs = objPre c req props addl kvs ∧
-    ∀ kvs1, objPre c req props addl kvs = some kvs1 → hasNullPropKvs kvs1 = false := by
-  have hd : defaulted (specCtx c) props kvs = defaulted c props kvs ∧ hasNullPropKvs (defaulted c props kvs) = false := by
-    unfold defaulted
-    have : (specCtx c).setDefaults = c.setDefaults := rfl
-    rw [this]
-    cases c.setDefaults with
-    | false => exact ⟨rfl, hn⟩
-    | true => exact injectDefaults_spec c props kvs hc hn
-  constructor
-  · unfold objPre
-    rw [hd.1]
-    rfl
-  · intro kvs1 h
-    rw [(objPre_some c req props addl kvs kvs1 h).1]; exact hd.2
-
-/-- what the induction carries: on values without null members the two readings agree and the result has none -/
-def Agree (c : Ctx) (s : S) : Prop :=
-  ∀ v, hasNullProp v = false →
-    visit (specCtx c) s v = visit c s v ∧ ∀ v', visit c s v = some v' → hasNullProp v' = false
-
-theorem visitProps_spec (c : Ctx) : ∀ (ps : List (String × S)), (∀ p ∈ ps, Agree c p.2) →
-    ∀ kvs, hasNullPropKvs kvs = false →
-      visitProps (specCtx c) ps kvs = visitProps c ps kvs ∧
-      ∀ kvs', visitProps c ps kvs = some kvs' → hasNullPropKvs kvs' = false
-  | [], _, kvs, hn => by simp [visitProps, hn]
-  | (k, s) :: ps, hp, kvs, hn => by
-    have hps : ∀ p ∈ ps, Agree c p.2 := fun p hm => hp p (by simp [hm])
-    simp only [visitProps]
+/-- **The default loop of visitJSONObject is the spec's one-shot reading**: the received members, followed by one
+    member for each absent property with an applicable default. -/
+theorem injectDefaults_eq_append (c : Ctx) : ∀ (ps : List (String × S)) (kvs : List (String × J)),
+    keysNodup (ps.map (·.1)) = true → injectDefaults c ps kvs = kvs ++ absentDefaults c ps kvs
+  | [], kvs, _ => by simp [injectDefaults, absentDefaults]
+  | (k, s) :: ps, kvs, hn => by
+    simp only [List.map_cons, keysNodup, Bool.and_eq_true, Bool.not_eq_true'] at hn
+    simp only [injectDefaults, absentDefaults, injectStep]
     cases hl : lookup k kvs with
-    | none => exact visitProps_spec c ps hps kvs hn
+    | some x =>
+      simp only [slotEmpty, Bool.false_eq_true, ↓reduceIte]
+      exact injectDefaults_eq_append c ps kvs hn.2
+    | none =>
+      simp only [slotEmpty, ↓reduceIte]
+      cases hd : dfltFor c s.attr with
+      | none => exact injectDefaults_eq_append c ps kvs hn.2
+      | some d =>
+        simp only
+        rw [setKey_absent k d kvs hl, injectDefaults_eq_append c ps _ hn.2, absentDefaults_append c k d ps kvs hn.1]
+        simp
+
+theorem defaulted_eq_spec (c : Ctx) (ps : List (String × S)) (kvs : List (String × J))
+    (hn : keysNodup (ps.map (·.1)) = true) : defaulted c ps kvs = specDefaulted c ps kvs := by
+  unfold defaulted specDefaulted
+  split
+  · exact injectDefaults_eq_append c ps kvs hn
+  · rfl
+
+theorem objPre_eq_spec (c : Ctx) (req props addl) (kvs : List (String × J))
+    (hn : keysNodup (props.map (·.1)) = true) : objPre c req props addl kvs = specObjPre c req props addl kvs := by
+  unfold objPre specObjPre
+  rw [defaulted_eq_spec c props kvs hn]
+
+theorem specVisit_leaf (c : Ctx) (a : Attr) (ty : Ty) (v : J) :
+    specVisit c (.leaf a ty) v =
+      (if v.isNull then (if a.nullable then some v else none) else if leafOK ty v then some v else none) := by
+  rw [specVisit.eq_def]
+
+theorem specVisit_obj_obj (c : Ctx) (a : Attr) (req props addl kvs) :
+    specVisit c (.obj a req props addl) (.obj kvs) =
+      (specObjPre c req props addl kvs).bind (fun kvs1 => (specVisitProps c props kvs1).map J.obj) := by
+  rw [specVisit.eq_def]
+
+theorem specVisit_obj_null (c : Ctx) (a : Attr) (req props addl) :
+    specVisit c (.obj a req props addl) .null = if a.nullable then some .null else none := by
+  rw [specVisit.eq_def]
+
+theorem specVisit_obj_other (c : Ctx) (a : Attr) (req props addl) (v : J) (h1 : v.isNull = false)
+    (h2 : ∀ kvs, v ≠ .obj kvs) : specVisit c (.obj a req props addl) v = none := by
+  cases v with
+  | null => simp [J.isNull] at h1
+  | obj kvs => exact absurd rfl (h2 kvs)
+  | bool b => rw [specVisit.eq_def]
+  | num n => rw [specVisit.eq_def]
+  | str t => rw [specVisit.eq_def]
+  | arr xs => rw [specVisit.eq_def]
+
+theorem specVisit_arr_arr (c : Ctx) (a : Attr) (items xs) :
+    specVisit c (.arr a items) (.arr xs) = (mapOpt (fun x => specVisit c items x) xs).map J.arr := by
+  rw [specVisit.eq_def]
+
+theorem specVisit_arr_null (c : Ctx) (a : Attr) (items) :
+    specVisit c (.arr a items) .null = if a.nullable then some .null else none := by
+  rw [specVisit.eq_def]
+
+theorem specVisit_arr_other (c : Ctx) (a : Attr) (items) (v : J) (h1 : v.isNull = false)
+    (h2 : ∀ xs, v ≠ .arr xs) : specVisit c (.arr a items) v = none := by
+  cases v with
+  | null => simp [J.isNull] at h1
+  | arr xs => exact absurd rfl (h2 xs)
+  | bool b => rw [specVisit.eq_def]
+  | num n => rw [specVisit.eq_def]
+  | str t => rw [specVisit.eq_def]
+  | obj kvs => rw [specVisit.eq_def]
+
+theorem specVisit_comb (c : Ctx) (a : Attr) (k : Kind) (bs : List S) (v : J) :
+    specVisit c (.comb a k bs) v = combRes a k bs.isEmpty v (specVisitAll c bs v) (specVisitMatches c bs v) := by
+  rw [specVisit.eq_def]
+
+theorem visitProps_eq_spec (c : Ctx) : ∀ (ps : List (String × S)), (∀ p ∈ ps, ∀ x, visit c p.2 x = specVisit c p.2 x) →
+    ∀ kvs, visitProps c ps kvs = specVisitProps c ps kvs
+  | [], _, kvs => by simp [visitProps, specVisitProps]
+  | (k, s) :: ps, hp, kvs => by
+    have hps : ∀ p ∈ ps, ∀ x, visit c p.2 x = specVisit c p.2 x := fun p hm => hp p (by simp [hm])
+    simp only [visitProps, specVisitProps]
+    cases lookup k kvs with
+    | none => exact visitProps_eq_spec c ps hps kvs
     | some x =>
       simp only
-      have hx := noNull_lookup kvs k x hn hl
-      obtain ⟨e1, e2⟩ := hp (k, s) (by simp) x hx.2
-      rw [e1]
-      cases hv : visit c s x with
-      | none => simp
-      | some x' =>
-        simp only [Option.bind_some]
-        have hx' : solid x' := ⟨by rw [visit_isNull c s x x' hv]; exact hx.1, e2 x' hv⟩
-        exact visitProps_spec c ps hps _ (noNull_setKey kvs k x' hn hx')
+      rw [hp (k, s) (by simp) x]
+      cases specVisit c s x with
+      | none => rfl
+      | some x' => simp only [Option.bind_some]; exact visitProps_eq_spec c ps hps _
 
-theorem mapOpt_spec (f g : J → Option J) : ∀ (xs : List J), hasNullPropList xs = false →
-    (∀ x, hasNullProp x = false → f x = g x ∧ ∀ y, g x = some y → hasNullProp y = false) →
-    mapOpt f xs = mapOpt g xs ∧ ∀ ys, mapOpt g xs = some ys → hasNullPropList ys = false
-  | [], _, _ => by simp [mapOpt, hasNullPropList]
-  | x :: xs, hn, h => by
-    simp only [hasNullPropList, Bool.or_eq_false_iff] at hn
-    obtain ⟨e1, e2⟩ := h x hn.1
-    obtain ⟨i1, i2⟩ := mapOpt_spec f g xs hn.2 h
-    simp only [mapOpt, e1, i1, true_and]
-    intro ys hy
-    cases hg : g x with
-    | none => simp [hg] at hy
-    | some y =>
-      cases hm : mapOpt g xs with
-      | none => simp [hg, hm] at hy
-      | some ys' =>
-        simp [hg, hm] at hy; subst hy
-        simp [hasNullPropList, e2 y hg, i2 ys' hm]
+theorem mapOpt_congr (f g : J → Option J) (h : ∀ x, f x = g x) : ∀ xs, mapOpt f xs = mapOpt g xs
+  | [] => rfl
+  | x :: xs => by simp only [mapOpt, h x, mapOpt_congr f g h xs]
 
-theorem visitMatches_spec (c : Ctx) (v : J) (hn : hasNullProp v = false) : ∀ (bs : List S), (∀ b ∈ bs, Agree c b) →
-    visitMatches (specCtx c) bs v = visitMatches c bs v ∧ ∀ x ∈ visitMatches c bs v, hasNullProp x = false
-  | [], _ => by simp [visitMatches]
+theorem visitMatches_eq_spec (c : Ctx) (v : J) : ∀ (bs : List S), (∀ b ∈ bs, ∀ x, visit c b x = specVisit c b x) →
+    visitMatches c bs v = specVisitMatches c bs v
+  | [], _ => by simp [visitMatches, specVisitMatches]
   | b :: bs, h => by
-    obtain ⟨e1, e2⟩ := h b (by simp) v hn
-    obtain ⟨i1, i2⟩ := visitMatches_spec c v hn bs (fun b' hb => h b' (by simp [hb]))
-    simp only [visitMatches, e1, i1, true_and]
-    intro x hx
-    simp only [List.mem_append] at hx
-    rcases hx with hx | hx
-    · cases hv : visit c b v with
-      | none => simp [hv] at hx
-      | some y => simp [hv] at hx; rw [hx]; exact e2 y hv
-    · exact i2 x hx
+    simp only [visitMatches, specVisitMatches]
+    rw [h b (by simp) v, visitMatches_eq_spec c v bs (fun b' hb => h b' (by simp [hb]))]
 
-theorem visitAll_spec (c : Ctx) : ∀ (bs : List S), (∀ b ∈ bs, Agree c b) → ∀ v, hasNullProp v = false →
-    visitAll (specCtx c) bs v = visitAll c bs v ∧ ∀ v', visitAll c bs v = some v' → hasNullProp v' = false
-  | [], _, v, hn => by simp [visitAll, hn]
-  | b :: bs, h, v, hn => by
-    obtain ⟨e1, e2⟩ := h b (by simp) v hn
-    simp only [visitAll, e1]
-    cases hv : visit c b v with
-    | none => simp
-    | some v1 =>
-      simp only [Option.bind_some]
-      exact visitAll_spec c bs (fun b' hb => h b' (by simp [hb])) v1 (e2 v1 hv)
+theorem visitAll_eq_spec (c : Ctx) : ∀ (bs : List S), (∀ b ∈ bs, ∀ x, visit c b x = specVisit c b x) →
+    ∀ v, visitAll c bs v = specVisitAll c bs v
+  | [], _, v => by simp [visitAll, specVisitAll]
+  | b :: bs, h, v => by
+    simp only [visitAll, specVisitAll]
+    rw [h b (by simp) v]
+    cases specVisit c b v with
+    | none => rfl
+    | some v1 => simp only [Option.bind_some]; exact visitAll_eq_spec c bs (fun b' hb => h b' (by simp [hb])) v1
 
-theorem hasNullProp_of_pick (k : Kind) (ms : List J) (x : J) (h : pick k ms = some x)
-    (hm : ∀ y ∈ ms, hasNullProp y = false) : hasNullProp x = false := hm x (pick_mem k ms x h)
-
-theorem visit_agree (c : Ctx) : ∀ s, cleanDefaults s = true → Agree c s := by
+/-- the code's visit is the spec's, for every schema whose objects have distinct property names, on every value -/
+theorem visit_eq_spec (c : Ctx) : ∀ s, wf s = true → ∀ v, visit c s v = specVisit c s v := by
   intro s
   induction s using S.induct with
-  | leaf a ty =>
-    intro _ v hn
-    refine ⟨by rw [visit_leaf, visit_leaf], ?_⟩
-    intro v' h; rw [visit_leaf_id c a ty v v' h]; exact hn
+  | leaf a ty => intro _ v; rw [visit_leaf, specVisit_leaf]
   | obj a req props addl ih =>
-    intro hc v hn
-    simp only [cleanDefaults, Bool.and_eq_true] at hc
-    have hcp := cleanProps_true props hc.2
+    intro hw v
+    simp only [wf, Bool.and_eq_true] at hw
     cases v with
     | obj kvs =>
-      simp only [hasNullProp] at hn
-      obtain ⟨p1, p2⟩ := objPre_spec c req props addl kvs hcp hn
-      rw [visit_obj_obj, visit_obj_obj, p1]
-      cases hpre : objPre c req props addl kvs with
-      | none => simp
+      rw [visit_obj_obj, specVisit_obj_obj, objPre_eq_spec c req props addl kvs hw.1]
+      cases specObjPre c req props addl kvs with
+      | none => rfl
       | some kvs1 =>
         simp only [Option.bind_some]
-        obtain ⟨q1, q2⟩ := visitProps_spec c props (fun p hp => ih p hp (hcp p hp)) kvs1 (p2 kvs1 hpre)
-        rw [q1]
-        refine ⟨rfl, ?_⟩
-        intro v' h
+        rw [visitProps_eq_spec c props (fun p hp => ih p hp (wfProps_true props hw.2 p hp)) kvs1]
+    | null => rw [visit_obj_null, specVisit_obj_null]
+    | bool b => rw [visit_obj_other _ _ _ _ _ _ rfl (by simp), specVisit_obj_other _ _ _ _ _ _ rfl (by simp)]
+    | num n => rw [visit_obj_other _ _ _ _ _ _ rfl (by simp), specVisit_obj_other _ _ _ _ _ _ rfl (by simp)]
+    | str t => rw [visit_obj_other _ _ _ _ _ _ rfl (by simp), specVisit_obj_other _ _ _ _ _ _ rfl (by simp)]
+    | arr xs => rw [visit_obj_other _ _ _ _ _ _ rfl (by simp), specVisit_obj_other _ _ _ _ _ _ rfl (by simp)]
+  | arr a items ih =>
+    intro hw v
+    simp only [wf] at hw
+    cases v with
+    | arr xs => rw [visit_arr_arr, specVisit_arr_arr, mapOpt_congr _ _ (ih hw) xs]
+    | null => rw [visit_arr_null, specVisit_arr_null]
+    | bool b => rw [visit_arr_other _ _ _ _ rfl (by simp), specVisit_arr_other _ _ _ _ rfl (by simp)]
+    | num n => rw [visit_arr_other _ _ _ _ rfl (by simp), specVisit_arr_other _ _ _ _ rfl (by simp)]
+    | str t => rw [visit_arr_other _ _ _ _ rfl (by simp), specVisit_arr_other _ _ _ _ rfl (by simp)]
+    | obj kvs => rw [visit_arr_other _ _ _ _ rfl (by simp), specVisit_arr_other _ _ _ _ rfl (by simp)]
+  | comb a k bs ih =>
+    intro hw v
+    simp only [wf] at hw
+    have hb : ∀ b ∈ bs, ∀ x, visit c b x = specVisit c b x := fun b hm => ih b hm (wfList_true bs hw b hm)
+    rw [visit_comb, specVisit_comb, visitAll_eq_spec c bs hb v, visitMatches_eq_spec c v bs hb]
+
+end KinModel.C13.Body
+
+namespace KinModel.C13.Body
+
+/-! ### `touched`: a visit that set no default anywhere forwards the value as it is -/
+
+theorem touched_leaf (c : Ctx) (a : Attr) (ty : Ty) (v : J) : touched c (.leaf a ty) v = false := by rw [touched]
+
+theorem touched_obj_obj (c : Ctx) (a : Attr) (req props addl kvs) :
+    touched c (.obj a req props addl) (.obj kvs) =
+      ((c.setDefaults && (defaulted c props kvs).length != kvs.length) ||
+        touchedProps c (stopKey c addl props (defaulted c props kvs)) props (defaulted c props kvs)) := by
+  rw [touched]
+
+theorem touched_arr_arr (c : Ctx) (a : Attr) (items xs) :
+    touched c (.arr a items) (.arr xs) =
+      anyUntil (fun x => touched c items x) (fun x => (visit c items x).isNone && !c.multi) xs := by
+  rw [touched]
+
+theorem touched_comb (c : Ctx) (a : Attr) (k : Kind) (bs : List S) (v : J) :
+    touched c (.comb a k bs) v =
+      (if v.isNull then false
+       else match k with
+        | .oneOf => touchedEach c bs v
+        | .anyOf => touchedUntilMatch c bs v
+        | .allOf => touchedChain c bs v) := by
+  rw [touched.eq_def]
+  cases v <;> rfl
+
+/-- with default-setting skipped nothing is ever touched -/
+theorem defaulted_length (c : Ctx) (props : List (String × S)) (kvs : List (String × J))
+    (hn : keysNodup (props.map (·.1)) = true) (h : (defaulted c props kvs).length = kvs.length) :
+    defaulted c props kvs = kvs := by
+  rw [defaulted_eq_spec c props kvs hn] at h ⊢
+  unfold specDefaulted at h ⊢
+  split
+  · rename_i hc
+    simp only [hc, ↓reduceIte, List.length_append] at h
+    have : (absentDefaults c props kvs).length = 0 := by omega
+    rw [List.length_eq_zero_iff.mp this]; simp
+  · rfl
+
+theorem firstUnknown_none (props : List (String × S)) : ∀ (kvs : List (String × J)),
+    (∀ kv ∈ kvs, (lookup kv.1 props).isSome = true) → firstUnknown props kvs = none
+  | [], _ => rfl
+  | (k, x) :: r, h => by
+    simp only [firstUnknown, firstUnknown_none props r (fun kv hm => h kv (by simp [hm]))]
+    simp [h (k, x) (by simp)]
+
+theorem stopKey_none_of_checks (c : Ctx) (req props addl) (kvs1 : List (String × J))
+    (h : objChecks c req props addl kvs1 = true) : stopKey c addl props kvs1 = none := by
+  unfold stopKey
+  cases ha : addl with
+  | true => simp
+  | false =>
+    cases hm : c.multi with
+    | true => simp
+    | false =>
+      simp only [Bool.or_self, Bool.false_eq_true, ↓reduceIte]
+      apply firstUnknown_none
+      unfold objChecks addlOK at h
+      simp only [Bool.and_eq_true, List.all_eq_true, ha, Bool.false_or] at h
+      exact h.1.2
+
+/-- members that are all accepted and untouched stay as they are -/
+theorem visitProps_untouched (c : Ctx) : ∀ (ps : List (String × S)),
+    (∀ p ∈ ps, ∀ x x', visit c p.2 x = some x' → touched c p.2 x = false → x' = x) →
+    ∀ kvs kvs', visitProps c ps kvs = some kvs' → touchedProps c none ps kvs = false → kvs' = kvs
+  | [], _, kvs, kvs', h, _ => by simp [visitProps] at h; exact h.symm
+  | (k, s) :: ps, hp, kvs, kvs', h, ht => by
+    have hps : ∀ p ∈ ps, ∀ x x', visit c p.2 x = some x' → touched c p.2 x = false → x' = x :=
+      fun p hm => hp p (by simp [hm])
+    simp only [visitProps] at h
+    simp only [touchedProps] at ht
+    cases hl : lookup k kvs with
+    | none =>
+      simp only [hl] at h ht
+      exact visitProps_untouched c ps hps kvs kvs' h ht
+    | some x =>
+      simp only [hl] at h ht
+      cases hv : visit c s x with
+      | none => simp [hv] at h
+      | some x' =>
+        simp only [hv, Option.bind_some] at h
+        simp only [beyond, Bool.false_eq_true, ↓reduceIte, hv, Option.isNone_some, Bool.false_and, Bool.or_eq_false_iff] at ht
+        have hx : x' = x := hp (k, s) (by simp) x x' hv ht.1
+        subst hx
+        rw [setKey_noop k x' kvs hl] at h
+        exact visitProps_untouched c ps hps kvs kvs' h ht.2
+
+theorem mapOpt_untouched (f : J → Option J) (t ends : J → Bool) (hf : ∀ x y, f x = some y → t x = false → y = x)
+    (he : ∀ x, ends x = true → f x = none) :
+    ∀ (xs ys : List J), mapOpt f xs = some ys → anyUntil t ends xs = false → ys = xs
+  | [], ys, h, _ => by simp [mapOpt] at h; exact h
+  | x :: xs, ys, h, ht => by
+    simp only [mapOpt] at h
+    cases hx : f x with
+    | none => simp [hx] at h
+    | some y =>
+      cases hxs : mapOpt f xs with
+      | none => simp [hx, hxs] at h
+      | some ys' =>
+        simp [hx, hxs] at h; subst h
+        simp only [anyUntil, Bool.or_eq_false_iff] at ht
+        have hne : ends x = false := by
+          cases hh : ends x with
+          | false => rfl
+          | true => rw [he x hh] at hx; cases hx
+        simp only [hne, Bool.false_eq_true, ↓reduceIte] at ht
+        rw [hf x y hx ht.1, mapOpt_untouched f t ends hf he xs ys' hxs ht.2]
+
+theorem visitAll_untouched (c : Ctx) : ∀ (bs : List S),
+    (∀ b ∈ bs, ∀ x x', visit c b x = some x' → touched c b x = false → x' = x) →
+    ∀ v v', visitAll c bs v = some v' → touchedChain c bs v = false → v' = v
+  | [], _, v, v', h, _ => by simp [visitAll] at h; exact h.symm
+  | b :: bs, hb, v, v', h, ht => by
+    simp only [visitAll] at h
+    simp only [touchedChain, Bool.or_eq_false_iff] at ht
+    cases hv : visit c b v with
+    | none => simp [hv] at h
+    | some v1 =>
+      simp only [hv, Option.bind_some] at h
+      simp only [hv] at ht
+      have e : v1 = v := hb b (by simp) v v1 hv ht.1
+      subst e
+      exact visitAll_untouched c bs (fun b' hm => hb b' (by simp [hm])) v1 v' h ht.2
+
+theorem touchedEach_false (c : Ctx) (v : J) : ∀ (bs : List S), touchedEach c bs v = false → ∀ b ∈ bs, touched c b v = false
+  | [], _, b, hb => by cases hb
+  | b0 :: bs, h, b, hb => by
+    simp only [touchedEach, Bool.or_eq_false_iff] at h
+    cases hb with
+    | head => exact h.1
+    | tail _ hm => exact touchedEach_false c v bs h.2 b hm
+
+/-- up to and including the first accepting branch -/
+theorem touchedUntilMatch_false (c : Ctx) (v : J) : ∀ (pre : List S) (b : S) (post : List S),
+    (∀ p ∈ pre, visit c p v = none) → touchedUntilMatch c (pre ++ b :: post) v = false → touched c b v = false
+  | [], b, post, _, h => by
+    simp only [List.nil_append, touchedUntilMatch, Bool.or_eq_false_iff] at h; exact h.1
+  | p :: pre, b, post, hp, h => by
+    simp only [List.cons_append, touchedUntilMatch, Bool.or_eq_false_iff, hp p (by simp), Option.isSome_none,
+      Bool.false_eq_true, ↓reduceIte] at h
+    exact touchedUntilMatch_false c v pre b post (fun q hq => hp q (by simp [hq])) h.2
+
+/-- **A visit that ran the `DefaultsSet` callback nowhere forwards the value as it is.** -/
+theorem untouched_unchanged (c : Ctx) : ∀ s, wf s = true → ∀ v v', visit c s v = some v' → touched c s v = false → v' = v := by
+  intro s
+  induction s using S.induct with
+  | leaf a ty => intro _ v v' h _; exact visit_leaf_id c a ty v v' h
+  | obj a req props addl ih =>
+    intro hw v v' h ht
+    simp only [wf, Bool.and_eq_true] at hw
+    cases v with
+    | obj kvs =>
+      rw [visit_obj_obj] at h
+      rw [touched_obj_obj, Bool.or_eq_false_iff] at ht
+      cases hpre : objPre c req props addl kvs with
+      | none => simp [hpre] at h
+      | some kvs1 =>
+        simp only [hpre, Option.bind_some] at h
         cases hv : visitProps c props kvs1 with
         | none => simp [hv] at h
-        | some kvs' => simp [hv] at h; subst h; simp only [hasNullProp]; exact q2 kvs' hv
-    | null => refine ⟨by rw [visit_obj_null, visit_obj_null], ?_⟩
-              intro v' h; rw [visit_obj_null] at h; split at h <;> cases h; rfl
-    | bool b => refine ⟨by rw [visit_obj_other _ _ _ _ _ _ rfl (by simp), visit_obj_other _ _ _ _ _ _ rfl (by simp)], ?_⟩
-                intro v' h; rw [visit_obj_other _ _ _ _ _ _ rfl (by simp)] at h; cases h
-    | num n => refine ⟨by rw [visit_obj_other _ _ _ _ _ _ rfl (by simp), visit_obj_other _ _ _ _ _ _ rfl (by simp)], ?_⟩
-               intro v' h; rw [visit_obj_other _ _ _ _ _ _ rfl (by simp)] at h; cases h
-    | str t => refine ⟨by rw [visit_obj_other _ _ _ _ _ _ rfl (by simp), visit_obj_other _ _ _ _ _ _ rfl (by simp)], ?_⟩
-               intro v' h; rw [visit_obj_other _ _ _ _ _ _ rfl (by simp)] at h; cases h
-    | arr xs => refine ⟨by rw [visit_obj_other _ _ _ _ _ _ rfl (by simp), visit_obj_other _ _ _ _ _ _ rfl (by simp)], ?_⟩
-                intro v' h; rw [visit_obj_other _ _ _ _ _ _ rfl (by simp)] at h; cases h
+        | some kvs' =>
+          simp [hv] at h; subst h
+          obtain ⟨e1, e2⟩ := objPre_some c req props addl kvs kvs1 hpre
+          have hd : defaulted c props kvs = kvs := by
+            cases hc : c.setDefaults with
+            | false => simp [defaulted, hc]
+            | true =>
+              apply defaulted_length c props kvs hw.1
+              have := ht.1
+              simp only [hc, Bool.true_and, bne_eq_false_iff_eq] at this
+              exact this
+          rw [hd] at e1; subst e1
+          rw [hd, stopKey_none_of_checks c req props addl kvs1 e2] at ht
+          rw [visitProps_untouched c props (fun p hp => ih p hp (wfProps_true props hw.2 p hp)) kvs1 kvs' hv ht.2]
+    | null => rw [visit_obj_null] at h; split at h <;> cases h; rfl
+    | bool b => rw [visit_obj_other _ _ _ _ _ _ rfl (by simp)] at h; cases h
+    | num n => rw [visit_obj_other _ _ _ _ _ _ rfl (by simp)] at h; cases h
+    | str t => rw [visit_obj_other _ _ _ _ _ _ rfl (by simp)] at h; cases h
+    | arr xs => rw [visit_obj_other _ _ _ _ _ _ rfl (by simp)] at h; cases h
   | arr a items ih =>
-    intro hc v hn
-    simp only [cleanDefaults, Bool.and_eq_true] at hc
+    intro hw v v' h ht
+    simp only [wf] at hw
     cases v with
     | arr xs =>
-      simp only [hasNullProp] at hn
-      obtain ⟨m1, m2⟩ := mapOpt_spec (fun x => visit (specCtx c) items x) (fun x => visit c items x) xs hn
-        (fun x hx => ih hc.2 x hx)
-      rw [visit_arr_arr, visit_arr_arr, m1]
-      refine ⟨rfl, ?_⟩
-      intro v' h
+      rw [visit_arr_arr] at h
+      rw [touched_arr_arr] at ht
       cases hm : mapOpt (fun x => visit c items x) xs with
       | none => simp [hm] at h
-      | some ys => simp [hm] at h; subst h; simp only [hasNullProp]; exact m2 ys hm
-    | null => refine ⟨by rw [visit_arr_null, visit_arr_null], ?_⟩
-              intro v' h; rw [visit_arr_null] at h; split at h <;> cases h; rfl
-    | bool b => refine ⟨by rw [visit_arr_other _ _ _ _ rfl (by simp), visit_arr_other _ _ _ _ rfl (by simp)], ?_⟩
-                intro v' h; rw [visit_arr_other _ _ _ _ rfl (by simp)] at h; cases h
-    | num n => refine ⟨by rw [visit_arr_other _ _ _ _ rfl (by simp), visit_arr_other _ _ _ _ rfl (by simp)], ?_⟩
-               intro v' h; rw [visit_arr_other _ _ _ _ rfl (by simp)] at h; cases h
-    | str t => refine ⟨by rw [visit_arr_other _ _ _ _ rfl (by simp), visit_arr_other _ _ _ _ rfl (by simp)], ?_⟩
-               intro v' h; rw [visit_arr_other _ _ _ _ rfl (by simp)] at h; cases h
-    | obj kvs => refine ⟨by rw [visit_arr_other _ _ _ _ rfl (by simp), visit_arr_other _ _ _ _ rfl (by simp)], ?_⟩
-                 intro v' h; rw [visit_arr_other _ _ _ _ rfl (by simp)] at h; cases h
+      | some ys =>
+        simp [hm] at h; subst h
+        rw [mapOpt_untouched _ _ _ (fun x y hxy => ih hw x y hxy) (fun x hx => by
+          simp only [Bool.and_eq_true, Option.isNone_iff_eq_none] at hx; exact hx.1) xs ys hm ht]
+    | null => rw [visit_arr_null] at h; split at h <;> cases h; rfl
+    | bool b => rw [visit_arr_other _ _ _ _ rfl (by simp)] at h; cases h
+    | num n => rw [visit_arr_other _ _ _ _ rfl (by simp)] at h; cases h
+    | str t => rw [visit_arr_other _ _ _ _ rfl (by simp)] at h; cases h
+    | obj kvs => rw [visit_arr_other _ _ _ _ rfl (by simp)] at h; cases h
   | comb a k bs ih =>
-    intro hc v hn
-    simp only [cleanDefaults, Bool.and_eq_true] at hc
-    have hb : ∀ b ∈ bs, Agree c b := fun b hm => ih b hm (cleanList_true bs hc.2 b hm)
-    obtain ⟨a1, a2⟩ := visitAll_spec c bs hb v hn
-    obtain ⟨m1, m2⟩ := visitMatches_spec c v hn bs hb
-    rw [visit_comb, visit_comb, a1, m1]
-    refine ⟨rfl, ?_⟩
-    intro v' h
-    rcases combRes_some h with e | ⟨_, _, hall⟩ | ⟨_, _, hp⟩
-    · rw [e]; exact hn
-    · exact a2 v' hall
-    · exact hasNullProp_of_pick k _ v' hp m2
+    intro hw v v' h ht
+    simp only [wf] at hw
+    have hb : ∀ b ∈ bs, ∀ x x', visit c b x = some x' → touched c b x = false → x' = x :=
+      fun b hm => ih b hm (wfList_true bs hw b hm)
+    rw [touched_comb] at ht
+    rw [visit_comb] at h
+    rcases combRes_some h with e | ⟨_, hk, hall⟩ | ⟨_, hk, hp⟩
+    · exact e
+    · subst hk
+      cases hn : v.isNull with
+      | true =>
+        have := visit_isNull c (.comb a .allOf bs) v v' (by rw [visit_comb]; exact h)
+        cases v <;> simp [J.isNull] at hn
+        cases v' <;> simp [J.isNull] at this; rfl
+      | false =>
+        simp only [hn, Bool.false_eq_true, ↓reduceIte] at ht
+        exact visitAll_untouched c bs hb v v' hall ht
+    · cases hn : v.isNull with
+      | true =>
+        have := visit_isNull c (.comb a k bs) v v' (by rw [visit_comb]; exact h)
+        cases v <;> simp [J.isNull] at hn
+        cases v' <;> simp [J.isNull] at this; rfl
+      | false =>
+        simp only [hn, Bool.false_eq_true, ↓reduceIte] at ht
+        cases k with
+        | allOf => exact absurd rfl hk
+        | anyOf =>
+          simp only at ht
+          obtain ⟨tl, htl⟩ := (pick_anyOf _ _).mp hp
+          obtain ⟨pre, b, post, e, hpre, hv⟩ := visitMatches_head c v v' bs tl htl
+          subst e
+          exact hb b (by simp) v v' hv (touchedUntilMatch_false c v pre b post hpre ht)
+        | oneOf =>
+          simp only at ht
+          obtain ⟨b', hb', hv⟩ := (mem_visitMatches c v v' bs).mp (pick_mem _ _ _ hp)
+          exact hb b' hb' v v' hv (touchedEach_false c v bs ht b' hb')
 
 end KinModel.C13.Body
